@@ -622,17 +622,16 @@ Section FileLevel.
      wf_file  the view is a file the token grammar can express (Idl/Print.v): no keyword used
               as a name, ids in i32, values in i64, containers named map / set / list *)
   Definition dump_ok (a : file) : bool :=
-    lex_ok fmt a && pd_ok a && wf_file (dump_view fmt a) && nonempty_l (dump fmt a).
+    lex_ok fmt a && pd_ok a && wf_file (dump_view fmt a).
 
   Theorem parse_dump a : dump_ok a = true ->
     exists b, parse (f_filename a) (dump fmt a) = Some b /\
               strip_comments b = strip_comments (dump_view fmt a).
   Proof.
     unfold dump_ok. intro H.
-    apply andb_true_iff in H. destruct H as [H Hne].
     apply andb_true_iff in H. destruct H as [H Hwf].
     apply andb_true_iff in H. destruct H as [Hlex Hpd].
-    unfold parse. destruct (dump fmt a) as [|c0 r0] eqn:Ed; [discriminate|]. rewrite <- Ed.
+    unfold parse.
     rewrite (lex_dump fmt a Hlex). destruct (group [] (dump_pieces fmt a)) as [lts fin] eqn:Eg.
     change (f_filename a) with (f_filename (dump_view fmt a)).
     apply parse_tokens_dump_order; [exact Hwf|].
